@@ -216,6 +216,10 @@ func gen(r *vh.Rand) string {
 			add("d%d:%d:%s", st.id, ln, b01(end))
 			if end {
 				st.ended = true
+			} else if r.Chance(1, 8) {
+				// trailers (HEADERS with END_STREAM) queued behind DATA that may be blocked on flow control
+				add("h%d:1", st.id)
+				st.ended = true
 			}
 		case k < 44:
 			st := live[r.Intn(len(live))]
@@ -260,9 +264,22 @@ func gen(r *vh.Rand) string {
 		case k < 95:
 			mfs = []int{16384, 16385, 30000, 65535, 1 << 20, 16777215}[r.Intn(6)]
 			add("m%d", mfs)
+			if r.Chance(1, 2) {
+				// SETTINGS_MAX_FRAME_SIZE changes while a message is half written
+				st := live[r.Intn(len(live))]
+				add("d%d:%d:%s", st.id, r.Range(40000, 70000), b01(false))
+				add("t")
+				mfs = []int{16384, 16385, 20000, 65535, 16777215}[r.Intn(5)]
+				add("m%d", mfs)
+				add("t")
+				add("w0:%d", r.Range(1, 70000))
+				add("t")
+			}
 		case k < 98:
-			st := live[r.Intn(len(live))]
+			j := r.Intn(len(live))
+			st := live[j]
 			add("f%d", st.id)
+			live = append(live[:j], live[j+1:]...) // a later open re-uses the scheduler's pooled queue
 		default:
 			// a stream id that does not exist
 			add("%s%d:%d", r.Pick("w", "h"), 99, 1)
@@ -288,6 +305,26 @@ func main() {
 				emit(fmt.Sprintf("o1;o3;i%d;d1:%d:0;d3:%d:1;t;t;t;t;t", w, ln, ln))
 			}
 		}
+		// SETTINGS_MAX_FRAME_SIZE shrinks / grows between the chunks of one queued message
+		for _, a := range []int{16384, 16385, 20000, 65535, 16777215} {
+			for _, b := range []int{16384, 16385, 20000, 16777215} {
+				emit(fmt.Sprintf("w0:200000;i200000;o1;m%d;d1:100000:1;t;m%d;t;t;t;t;t;t;t", a, b))
+			}
+		}
+		// connection window exhausted with stream windows open, and the reverse; zero-length END_STREAM at window 0
+		emit("o1;o3;d1:65535:0;t;t;t;t;d3:10:0;d3:0:1;t;t;w0:5;t;t;w0:5;t;t;t")
+		emit("i0;o1;o3;d1:10:0;d3:0:1;t;t;t;w1:4;t;w1:6;t;t")
+		emit("i10;o1;d1:10:0;d1:0:1;t;t;t")
+		emit("i10;o1;d1:11:0;h1:1;t;t;w1:1;t;t;t")
+		// several streams with queued data, window driven negative, then restored
+		emit("o1;o3;o5;d1:30000:0;d3:30000:0;d5:30000:1;t;t;i100;t;t;i0;t;i65535;t;t;t;t;t;t;t;t")
+		// WINDOW_UPDATE to exactly 2^31-1 and one more, connection and stream
+		emit("o1;w0:2147418112;w0:1;t")
+		emit("o1;w0:2147418113;t")
+		emit("o1;w1:2147418112;w1:1;d1:5:1;t;t")
+		emit("o1;d1:100:0;t;w1:2147418212;w0:2147418212;w1:1;t")
+		// reset / END_STREAM closes with data queued on pooled queues, then a new stream on the recycled queue
+		emit("o1;d1:100000:0;t;f1;o3;d3:7:1;t;t;o5;h5:0;d5:3:1;t;t;t")
 	}
 	vh.Main(gen, exec)
 }
